@@ -1,7 +1,7 @@
 """C12 — a peer never reorders the stream values it has already seen (DESIGN §4/C12)."""
 from rules import lib
 from rules.lib import Prov, show, walk
-from props import common, sides
+from props import common, sides, mergetab
 
 LEVEL = ("Mechanism level (order pins): the iteration order previous -> current -> new in Stream::iter and slice_iter "
          "(with cursor fields paired to their matrices), compactify numbering generations in the same order with start "
@@ -31,6 +31,18 @@ def check(ctx):
     ctx.clause("R-TABLE add_value: Previous->previous_values, Current->current_values, New->new_values")
     ctx.clause("R-TABLE Generation::from_data and From<PreparationScheme> for ValueSource")
     ctx.clause("R-FLOW update_generations: generation = start_idx + enumerate position")
+
+    # a value present in both data keeps the PREVIOUS side's state, hence the generation this peer already gave it:
+    # taking the incoming state would file an already-seen value under the sender's numbering and reorder it locally
+    ctx.clause("R-TABLE merge of a stream value / ap present in both data keeps the previous operand (the local generation number)")
+    _, ecells = mergetab.executed_cells(ctx, F)
+    outs = ecells.get(("Stream", "Stream"), set())
+    ctx.require(len(outs) == 1 and next(iter(outs))[0] == "prev", "R-TABLE", "both:stream-keeps-prev", "merge_executed(Stream,Stream) -> prev_value",
+                "merge_executed(Stream,Stream) is %s: a stream value already seen by this peer is re-filed under the incoming data's generation" % sorted(map(str, outs)))
+    _, kind, rows, _ = mergetab.next_state_table(F, "ap")
+    outs = rows.get(("Ap", "Ap"), set())
+    ctx.require(bool(outs) and all(o[1] and not o[2] for o in outs), "R-TABLE", "both:ap-keeps-prev", "(Ap,Ap) -> previous ap state",
+                "ap merge (Ap,Ap) is %s: an ap already seen by this peer takes the incoming data's generation" % sorted(map(str, outs)))
 
     it = F.fn("stream_definition::Stream::iter")
     e = Prov(it).local(0)
